@@ -308,11 +308,7 @@ def cdraws(ps, log):
         elif k == "randrange":
             out.append("DRandrange %s %s %s" % (cz(e[1]), cz(e[2]), cz(e[3])))
         elif k == "choice":
-            x = e[3]
-            if isinstance(x, type) and type(x) is not ps.gp.MetaEphemeral:
-                out.append("DT %d %d" % (e[1], ps.tid.get(x, 999)))
-            else:
-                out.append("DChoice %d %d" % (e[1], e[2]))
+            out.append("DChoice %d %d" % (e[1], e[2]))
         elif k == "eph":
             cls = ps.pset.mapping[e[1]]
             out.append("DE %d %s" % (ps.nid[id(cls)], cz(e[2])))
